@@ -96,6 +96,11 @@ def run_shard(spec, ctx):
             vals[rows_o[j], cols_o[j]] = 1e20
             ctx.count("other_individual_with_absurd_value")
         dfB.loc[other, feats] = vals
+        censor_others = events
+        if censor_others:
+            # the other individuals' events become censored (the target's own event data are untouched): possibly nobody is left with an observed event
+            dfB.loc[other, "EVENT_BOOL"] = False
+            ctx.count("joint_cohorts_B_with_the_others_censored")
         # C: the target alone;  D: permuted individuals
         dfC = df[df["ID"] == target].copy()
         perm = list(rng.permutation(n))
@@ -103,7 +108,13 @@ def run_shard(spec, ctx):
             perm = perm[::-1]
         dfD = pd.concat([df[df["ID"] == ids[p]] for p in perm], ignore_index=True)
         try:
-            dsB, dsD = gen.to_dataset(dfB, events=events), gen.to_dataset(dfD, events=events)
+            dsD = gen.to_dataset(dfD, events=events)
+            if censor_others:
+                from leaspy.io.data import Data as _Data, Dataset as _Dataset
+
+                dsB = _Dataset(_Data.from_dataframe(dfB, data_type="joint", factory_kws={"nb_events": 1}))
+            else:
+                dsB = gen.to_dataset(dfB, events=events)
             dsC = None if events else gen.to_dataset(dfC)  # a single-event cohort is refused by the joint reader
         except Exception as e:
             ctx.count("setup_skipped")
@@ -217,10 +228,12 @@ def run_shard(spec, ctx):
         # ---- personalisation: B (all families), C at position 0, E -----------------------------------------
         seed_p = int(rng.integers(1 << 30))
         algos = ["scipy_minimize", "mean_posterior", "mode_posterior"]
-        if kind in ("joint", "mixture_logistic"):
+        if kind == "mixture_logistic":
             algos = algos[1:]
         if ctx.tier == "quick":
             algos = [algos[(spec["k"] + i) % len(algos)], algos[(spec["k"] + i + 1) % len(algos)]]
+        if censor_others and "scipy_minimize" not in algos:
+            algos = ["scipy_minimize"] + algos[:1]
 
         if spec.get("do_E") and i == 0 and "scipy_minimize" not in algos and kind not in ("joint", "mixture_logistic"):
             algos = ["scipy_minimize"] + algos
@@ -242,10 +255,19 @@ def run_shard(spec, ctx):
         for name in algos:
             try:
                 idxA, pA = perso(ds, name)
-                idxB, pB = perso(dsB, name)
             except Exception as e:
                 ctx.count("personalize_skipped")
                 ctx.note(f"personalize_skipped_{name}_{type(e).__name__}", str(e)[:160])
+                continue
+            try:
+                idxB, pB = perso(dsB, name)
+            except Exception as e:
+                if absurd:
+                    ctx.count("personalize_skipped")  # an absurd value may legitimately make the whole call fail: not judged
+                    continue
+                viol(f"indep/personalize-depends-on-other-individuals/{name}",
+                     f"{name}: the call succeeds on the cohort and raises {type(e).__name__} ({str(e)[:120]}) once only OTHER individuals' observations"
+                     f"{' / events' if censor_others else ''} are changed")
                 continue
             ra, rb = idxA.index(str(target)), idxB.index(str(target))
             for pn in pA:
